@@ -329,10 +329,11 @@ def explore(inp, bound, prior, rep, stats, feats0):
     return runs, outputs, baseline
 
 
-def subprocess_run(inp, hashseed, order, work):
-    """Real CLI, un-instrumented, in a fresh interpreter."""
+def subprocess_run(inp, hashseed, order, work, again=False):
+    """Real CLI, un-instrumented, in a fresh interpreter.  again=True: run the command a second time over what the first run wrote
+    (a second fresh interpreter) and return (hashes after the first run, hashes after the second run, error)."""
     import toml
-    d = os.path.join(work, f"sub-{inp['label']}-{hashseed}-{order}")
+    d = os.path.join(work, f"sub-{inp['label']}-{hashseed}-{order}" + ("-again" if again else ""))
     os.makedirs(d)
     schema, queries = inp["schema"], inp.get("queries")
 
@@ -351,6 +352,12 @@ def subprocess_run(inp, hashseed, order, work):
     env.pop("PYTHONPATH", None)
     cmd = ["/venv/bin/python", "-m", "ariadne_codegen"] + (["graphqlschema"] if inp["strategy"] == "graphqlschema" else [])
     r = subprocess.run(cmd, cwd=rundir, env=env, capture_output=True, text=True, timeout=300)
+    if again:
+        pp = os.path.join(rundir, "pyproject.toml")
+        first = {k: v for k, v in hash_tree(os.path.join(d, "out")).items() if k != "pyproject.toml"}
+        r2 = subprocess.run(cmd, cwd=rundir, env=env, capture_output=True, text=True, timeout=300)
+        second = {k: v for k, v in hash_tree(os.path.join(d, "out")).items() if k != "pyproject.toml"}
+        return first, second, ((r.stderr[-300:] if r.returncode else None) or (r2.stderr[-300:] if r2.returncode else None))
     if inp.get("cwd_is_target"):
         os.remove(os.path.join(rundir, "pyproject.toml"))
     return hash_tree(os.path.join(d, "out")), (r.stderr[-300:] if r.returncode else None)
@@ -391,6 +398,14 @@ def main(tier):
                         explored = key in outputs
                         rep.violation("real_run_differs_from_baseline", feats0 | {"hashseed_or_creation_order"},
                                       f"PYTHONHASHSEED={hs} order={order}: files differ {diff[:8]} {err or ''} (output also produced by the owned exploration: {explored})", desc)
+            # regenerate history with REAL processes (the in-process runs share the zygote's import-time state, e.g. the import sorter's
+            # idea of the working directory): first run into a fresh directory, second run over it, both in their own interpreters
+            if inp.get("cwd_is_target") or inp["label"] in ("absolute_self_import", "fragment_fan", "split_files") or tier != "quick":
+                first, second, err = subprocess_run(inp, 0, 0, work, again=True)
+                stats["subprocess_runs"] += 2
+                if err or first != second:
+                    diff = sorted(k for k in set(first) | set(second) if first.get(k) != second.get(k))
+                    rep.violation("regeneration_differs_from_fresh", feats0 | {"real_processes"}, f"real CLI run twice: files differ {diff[:8]} {err or ''}", {"input": inp["label"], "history": "regenerate", "real_processes": True})
             rep.sample({"input": inp["label"], "strategy": inp["strategy"], "runs": runs, "distinct_outputs": len(outputs), "choice_points_in_baseline": len(baseline["sizes"])})
         return rep.finish({
             "states": max(stats["runs"], 1), "transitions": max(stats["transitions"], 1), "traces_validated_against_impl": stats["runs"] + stats["subprocess_runs"],
